@@ -69,14 +69,32 @@ func jsonToV(x any) eng.V {
 	return eng.VNil()
 }
 
-func httpSchema(ptr bool) *eng.Node {
+var structRule = "struct_rule"
+
+// optional: no field is required, so an empty record is a success unless the struct-level rule runs
+func httpSchema(ptr bool, optional ...bool) *eng.Node {
 	req := eng.TOpts{}
+	if len(optional) > 0 && optional[0] {
+		st := &eng.Node{Kind: "struct", Fields: []eng.Field{
+			{Key: "name", GoName: "Name", Tags: [][2]string{{"json", "j_name"}, {"form", "f_name"}, {"query", "q_name"}}, S: &eng.Node{Kind: "prim", PK: "str"}},
+			{Key: "n", GoName: "N", Tags: [][2]string{{"zog", "num"}}, S: &eng.Node{Kind: "prim", PK: "int"}},
+			{Key: "tags", GoName: "Tags", Tags: [][2]string{{"json", "tags"}, {"form", "tags[]"}, {"query", "tags[]"}}, S: &eng.Node{Kind: "slice", Elem: &eng.Node{Kind: "prim", PK: "str"}}},
+			{Key: "one", GoName: "One", S: &eng.Node{Kind: "slice", Elem: &eng.Node{Kind: "prim", PK: "str"}}},
+		}, Extra: []string{"Zextra"},
+			Tests: []eng.TestSpec{{ID: 9, Name: "fn", N: 2, R: 2, Opts: eng.TOpts{Code: &structRule}}}}
+		if ptr {
+			return &eng.Node{Kind: "ptr", Elem: st}
+		}
+		return st
+	}
 	st := &eng.Node{Kind: "struct", Fields: []eng.Field{
 		{Key: "name", GoName: "Name", Tags: [][2]string{{"json", "j_name"}, {"form", "f_name"}, {"query", "q_name"}}, S: &eng.Node{Kind: "prim", PK: "str", Req: &req, ReqID: 1}},
 		{Key: "n", GoName: "N", Tags: [][2]string{{"zog", "num"}}, S: &eng.Node{Kind: "prim", PK: "int"}},
 		{Key: "tags", GoName: "Tags", Tags: [][2]string{{"json", "tags"}, {"form", "tags[]"}, {"query", "tags[]"}}, S: &eng.Node{Kind: "slice", Elem: &eng.Node{Kind: "prim", PK: "str"}, Req: &req, ReqID: 2}},
 		{Key: "one", GoName: "One", S: &eng.Node{Kind: "slice", Elem: &eng.Node{Kind: "prim", PK: "str"}}},
-	}, Extra: []string{"Zextra"}}
+	}, Extra: []string{"Zextra"},
+		// a struct-level rule that never holds: its issue must be there whenever the struct node runs at all
+		Tests: []eng.TestSpec{{ID: 9, Name: "fn", N: 2, R: 2, Opts: eng.TOpts{Code: &structRule}}}}
 	if ptr {
 		return &eng.Node{Kind: "ptr", Elem: st}
 	}
@@ -85,7 +103,7 @@ func httpSchema(ptr bool) *eng.Node {
 
 func streamHTTP(seed uint64, n int, driver string) (*Summary, error) {
 	sum := newSummary("http", seed)
-	sum.Rule = "product of 9 methods x 14 Content-Type values (bare, with parameters, with whitespace, unknown, empty) x 15 body classes (valid object, {}, truncated, array, number, null, empty, valid form, malformed form, object followed by text / a bracket / a second object, object followed by white space, forms with a single blank k[] value) x 8 query shapes (none, single, repeated, k[] list, other keys, a single blank / white-space k[] value, blank values) x {Struct, Ptr(Struct)} with a distinct sentinel per source, under a rotating formatter level (default, execution es/en, i18n es, i18n after a history of installations); exhaustive over the product when n is large, sampled otherwise; non-trivial = every case (each fixes one source choice); distinct = distinct case line"
+	sum.Rule = "product of 9 methods x 14 Content-Type values (bare, with parameters, with whitespace, unknown, empty) x 15 body classes (valid object, {}, truncated, array, number, null, empty, valid form, malformed form, object followed by text / a bracket / a second object, object followed by white space, forms with a single blank k[] value) x 8 query shapes (none, single, repeated, k[] list, other keys, a single blank / white-space k[] value, blank values) x {Struct, Ptr(Struct)} x {required fields, no required field} with a struct-level rule that never holds and a distinct sentinel per source, under a rotating formatter level (default, execution es/en, i18n es, i18n after a history of installations); exhaustive over the product when n is large, sampled otherwise; non-trivial = every case (each fixes one source choice); distinct = distinct case line"
 	methods := []string{"GET", "HEAD", "POST", "PUT", "PATCH", "DELETE", "OPTIONS", "get", "CUSTOM"}
 	ctypes := []string{"application/json", "application/json; charset=utf-8", "application/json;charset=utf-8", "application/json ;x=1", "application/x-www-form-urlencoded",
 		"application/x-www-form-urlencoded; charset=UTF-8", "multipart/form-data; boundary=x", "text/plain", "", ";application/json", "Application/JSON", "application/jsonx", "application/json;", "text/plain; a=application/json"}
@@ -95,6 +113,7 @@ func streamHTTP(seed uint64, n int, driver string) (*Summary, error) {
 	type combo struct {
 		m, ct, body, q string
 		ptr            bool
+		opt            bool // no field required: an empty record succeeds unless the struct-level rule runs
 	}
 	var combos []combo
 	for _, m := range methods {
@@ -102,7 +121,7 @@ func streamHTTP(seed uint64, n int, driver string) (*Summary, error) {
 			for _, b := range bodies {
 				for _, q := range queries {
 					for _, p := range []bool{false, true} {
-						combos = append(combos, combo{m, ct, b, q, p})
+						combos = append(combos, combo{m, ct, b, q, p, false}, combo{m, ct, b, q, p, true})
 					}
 				}
 			}
@@ -112,6 +131,14 @@ func streamHTTP(seed uint64, n int, driver string) (*Summary, error) {
 	if n < len(combos) {
 		r.Shuffle(len(combos), func(i, j int) { combos[i], combos[j] = combos[j], combos[i] })
 		combos = combos[:n]
+		// always there: the empty object and the empty / null bodies through the JSON route, on both schemas
+		for _, b := range []string{`{}`, ``, `null`, "{\"j_name\":\"J\",\"num\":7} \n\t "} {
+			for _, p := range []bool{false, true} {
+				for _, o := range []bool{false, true} {
+					combos = append(combos, combo{"POST", "application/json", b, "", p, o}, combo{"PUT", "application/json; charset=utf-8", b, "q_name=Q", p, o})
+				}
+			}
+		}
 	} else {
 		sum.Exhaustive = true
 	}
@@ -130,7 +157,7 @@ func streamHTTP(seed uint64, n int, driver string) (*Summary, error) {
 			}
 			return req
 		}
-		schema := httpSchema(c.ptr)
+		schema := httpSchema(c.ptr, c.opt)
 		cs := &eng.Case{ID: i, Mode: "p", Schema: schema, Dest: eng.SentinelZero(schema)}
 		// the formatter level varies too: decode failures must get their message the way every issue does
 		cs.Fmt = []string{"", "exec:es", "", "i18n:es", "i18nh:locale,-:lang=es,locale=en", "exec:en", ""}[i%7]
@@ -221,6 +248,11 @@ func streamHTTP(seed uint64, n int, driver string) (*Summary, error) {
 		mp := mv.issueKeys(true, "code,path,dtype,msg", nil) + " " + mv.dest.String()
 		if ip != mp {
 			sum.addMismatch("C15", Mismatch{Case: lines[i], Impl: impls[i], Model: modelLine, What: fmt.Sprintf("model reads source %s; projection impl=%s model=%s", src, ip, mp)})
+			if iv.noIssues() && !mv.noIssues() {
+				// the implementation reports success where the reference semantics finds a violated test (C01, C02)
+				sum.addMismatch("C01", Mismatch{Case: lines[i], Impl: impls[i], Model: modelLine, What: fmt.Sprintf("Parse reported no issue, the reference semantics does; projection impl=%s model=%s", ip, mp)})
+				sum.addMismatch("C02", Mismatch{Case: lines[i], Impl: impls[i], Model: modelLine, What: fmt.Sprintf("Parse reported no issue, the reference semantics does; projection impl=%s model=%s", ip, mp)})
+			}
 			if iv.issueKeys(true, "code,path,dtype", nil) == mv.issueKeys(true, "code,path,dtype", nil) {
 				// the same issues with other messages: the message clause (C11)
 				sum.addMismatch("C11", Mismatch{Case: lines[i], Impl: impls[i], Model: modelLine, What: fmt.Sprintf("messages differ; projection impl=%s model=%s", ip, mp)})
